@@ -50,7 +50,7 @@ RuleGroup(name) ==
     [] name = "conj"  -> {"Translate", "ArgScale", "LScale", "RVec", "AddConst", "QuadPert", "Conj",
                           "Bregman", "InfConv"}
     [] name = "grad"  -> {"Translate", "ArgScale", "LScale", "RVec", "AddConst", "QuadPert", "Bregman",
-                          "Comp", "Sum", "Prod", "Quot"}
+                          "Comp", "CompPow", "Sum", "Prod", "Quot"}
     [] name = "lin"   -> {"Translate", "ArgScale", "LScale", "RVec", "AddConst", "Sum", "Prod", "Quot"}
     [] name = "lin3"  -> {"Translate", "ArgScale", "LScale"}
 MC_RuleFilter == RuleGroup(IOEnv.FM_RULES)
@@ -73,7 +73,8 @@ ArgD == IF N = 2 THEN 4 ELSE 2
 SigVec == Strict([j \in 1..N |-> IF MC_Sp.kind = "pspace"
                                     THEN (IF j <= MC_Sp.n THEN Q(1, 2) ELSE QI(2))
                                     ELSE (IF j % 2 = 1 THEN Q(1, 2) ELSE QI(2))])
-Sigmas == {[k |-> "s", v |-> RConst(N, s)] : s \in (IF Full THEN {Q(1, 2), QOne, QI(2), Q(5, 2)}
+\* (8: a step beyond every |x| of the grid - everything is thresholded)
+Sigmas == {[k |-> "s", v |-> RConst(N, s)] : s \in (IF Full THEN {Q(1, 2), QOne, QI(2), Q(5, 2), QI(8)}
                                                          ELSE {Q(1, 2), Q(5, 2)})}
           \cup {[k |-> "v", v |-> SigVec]}
 \* dual points for the conjugate queries
